@@ -3,7 +3,7 @@
    Proofs2.v (CallOk), Proofs3.v (wf, loadable, holds, ids_of, cell_ids, cells_disjoint,
    parent_files_consistent), Proofs4.v (spec_ok); best_child, best_child_repaired, best_fits_query, highest_in: Model.v. *)
 From Coq Require Import List String Bool ZArith.
-From PAFC11 Require Import Lib Gen Model Proofs Proofs2 Proofs3 Proofs4 Proofs5.
+From PAFC11 Require Import Lib Gen Model Proofs Proofs2 Proofs3 Proofs4 Proofs5 Proofs6.
 Import ListNotations.
 Open Scope string_scope.
 Open Scope list_scope.
@@ -247,6 +247,43 @@ Theorem C11_archive_wins : forall (classes : list search_class) (uf co : bool) (
       exists r, In r db /\ holds_content r a.
 Proof. exact archive_wins. Qed.
 
+(* ---- the identifier on its two sides, for every unique tag (absent / empty / non-empty) ---- *)
+(* the writer (folder name; id of a fit written through a session) and the loader (SearchOutput.id, used by the
+   Scraper) hash the same tokens, hence give the same id under any hash *)
+Theorem C11_id_tokens_agree : forall (s m : list string) (tag : option string),
+  writer_tokens s m tag = loader_tokens s m tag.
+Proof. exact id_tokens_agree. Qed.
+
+Theorem C11_id_written_is_id_loaded : forall (H : list string -> string) (s m : list string) (tag : option string),
+  H (writer_tokens s m tag) = H (loader_tokens s m tag).
+Proof. exact id_agree. Qed.
+
+(* tag-presence rule: no tag, the empty tag and every other tag give different token lists *)
+Theorem C11_tag_presence_rule : forall (s m : list string) (t1 t2 : option string),
+  writer_tokens s m t1 = writer_tokens s m t2 -> t1 = t2.
+Proof. exact writer_tokens_tag_inj. Qed.
+
+Theorem C11_tag_presence_rule_loader : forall (s m : list string) (t1 t2 : option string),
+  loader_tokens s m t1 = loader_tokens s m t2 -> t1 = t2.
+Proof. exact loader_tokens_tag_inj. Qed.
+
+(* the rule "append the tag when it is truthy" is NOT equivalent: it agrees off the empty tag only *)
+Theorem C11_truthy_tag_rule_partial : forall (s m : list string) (tag : option string),
+  tag <> Some "" -> writer_tokens_truthy s m tag = loader_tokens s m tag.
+Proof. exact truthy_rule_partial. Qed.
+
+Theorem C11_truthy_tag_rule_refuted : forall (s m : list string),
+  writer_tokens_truthy s m (Some "") <> loader_tokens s m (Some "").
+Proof. exact truthy_rule_refuted. Qed.
+
+(* an empty tag adds no folder level: same location as the fit without tag, while the identifiers differ *)
+Theorem C11_empty_tag_same_location : forall (s : fit_spec),
+  spec_path (with_tag s (Some "")) = spec_path (with_tag s None).
+Proof. exact empty_tag_same_location. Qed.
+
+Theorem C11_no_empty_folder_level : forall (s : fit_spec), fs_id s <> "" -> ~ In "" (spec_path s).
+Proof. exact spec_path_no_empty_level. Qed.
+
 Print Assumptions C11_archive_wins.
 Print Assumptions C11_all_searches.
 Print Assumptions C11_second_load.
@@ -257,3 +294,11 @@ Print Assumptions C11_prefit_interrupted_harmless.
 Print Assumptions C11_grid_best_partial.
 Print Assumptions C11_grid_best_fits_query.
 Print Assumptions C11_grid_best_repaired.
+Print Assumptions C11_id_tokens_agree.
+Print Assumptions C11_id_written_is_id_loaded.
+Print Assumptions C11_tag_presence_rule.
+Print Assumptions C11_tag_presence_rule_loader.
+Print Assumptions C11_truthy_tag_rule_partial.
+Print Assumptions C11_truthy_tag_rule_refuted.
+Print Assumptions C11_empty_tag_same_location.
+Print Assumptions C11_no_empty_folder_level.
